@@ -63,6 +63,7 @@ enum rx_state {
 	RX_ST_DATA,
 	RX_ST_ESCAPE,
 	RX_ST_ADDR_ESCAPE,
+	RX_ST_OVERLONG,
 };
 
 static struct {
@@ -255,7 +256,12 @@ int sercomm_drv_rx_char(uint8_t ch)
 		//cons_puts("sercomm_drv_rx_char() overflow!\n");
 		msgb_free(sercomm.rx.msg);
 		sercomm.rx.msg = sercomm_alloc_msgb(SERCOMM_RX_MSG_SIZE);
-		sercomm.rx.state = RX_ST_WAIT_START;
+		/* skip the remainder of the over-long frame: its closing flag
+		 * must not be mistaken for the start of the next frame */
+		if (ch == HDLC_FLAG)
+			sercomm.rx.state = RX_ST_WAIT_START;
+		else
+			sercomm.rx.state = RX_ST_OVERLONG;
 		return 0;
 	}
 
@@ -301,6 +307,10 @@ int sercomm_drv_rx_char(uint8_t ch)
 		/* default case: store the octet */
 		ptr = msgb_put(sercomm.rx.msg, 1);
 		*ptr = ch;
+		break;
+	case RX_ST_OVERLONG:
+		if (ch == HDLC_FLAG)
+			sercomm.rx.state = RX_ST_WAIT_START;
 		break;
 	case RX_ST_ESCAPE:
 		/* store bif-5-inverted octet in buffer */
